@@ -800,6 +800,17 @@ def decide_trace(procs, finals, inter):
     return bad
 
 
+def parse_row(text):
+    """the labels of a Paraver .row file's THREAD level, in row order"""
+    lines = text.split("\n")
+    try:
+        k = [i for i, ln in enumerate(lines) if ln.startswith("LEVEL THREAD SIZE")][0]
+    except IndexError:
+        return None
+    n = int(lines[k].split()[-1])
+    return lines[k + 1:k + 1 + n]
+
+
 def read_finals(tracedir):
     out = {}
     if not os.path.isdir(tracedir):
@@ -828,7 +839,8 @@ def run_family(chk, build, art, art_dir):
     chunks = [traces[i:i + 40] for i in range(0, len(traces), 40)]
     wd = trace.workdir("ovni-verif-rtmeta-")
     stats = {"programs": 0, "calls": 0, "model_die": 0, "real_abort": 0, "files_compared": 0, "conformant_completed": 0, "conformant_died_at_attr": 0,
-             "emulator_runs": 0, "emulator_ok": 0, "coq_meta_check_on_real": 0, "out_of_domain": 0, "conf_disagree": 0, "finished_only_at_free_checked": 0}
+             "emulator_runs": 0, "emulator_ok": 0, "coq_meta_check_on_real": 0, "out_of_domain": 0, "conf_disagree": 0, "finished_only_at_free_checked": 0,
+             "rows_compared": 0, "expected_metas_checked": 0, "expected_metas_differ": 0}
     mism = []
     confdis = []
     import threading
@@ -854,6 +866,9 @@ def run_family(chk, build, art, art_dir):
             per_trace.setdefault(ti, []).append((p, im, mo))
         kq = []
         kown = []
+        bq = []
+        bown = []
+        xq = []
         for ti, tr in enumerate(chunk):
             td = os.path.join(base, "tr%d" % ti, "ovni")
             res = per_trace[ti]
@@ -922,11 +937,43 @@ def run_family(chk, build, art, art_dir):
                     stats["emulator_runs"] += 1
                     if rc == 0:
                         stats["emulator_ok"] += 1
+                        # the rows the real emulator gave the threads and CPUs, against Emu/MetaDefs.build (C15's model of the
+                        # metadata merge) applied to the REAL final trees: ties C02_metadata_builds_system to the code
+                        try:
+                            order = sorted(finals, key=lambda k: ("loom.%s/proc.%d/thread.%d" % k).encode("latin1"))
+                            bq.append("B " + " ".join(enc(from_text(finals[k])) for k in order))
+                            rows = []
+                            for fn in ("thread.row", "cpu.row"):
+                                pth = os.path.join(td, fn)
+                                rows.append(parse_row(open(pth, encoding="latin1").read()) if os.path.exists(pth) else None)
+                            bown.append((ti, rows))
+                        except Exception as e:  # noqa
+                            chk.notes.append("rtmeta: rows of a valid trace could not be read: %r" % (e,))
+                        for p, _, _ in res:
+                            xq.append("X %s %s %s %s" % (ctx.cfg[0], ctx.cfg[1], ctx.cfg[2], p.script()))
                     else:
                         chk.violation("metadata:emulator-rejects:%s" % res[0][0].fingerprint(),
                                       "ovniemu -l rejects (exit %s) the trace of programs that follow the documented protocol" % rc,
                                       {"scripts": [p.short() for p, _, _ in res], "emulator_stderr": err[-1500:],
                                        "how": "each script: echo 'M z z z <script> <dir>/ovni' | build/harness/rtmeta_drv-* <dir>; ovniemu -l <dir>/ovni"})
+        if bq:
+            ans = common.batch(ctx.oracle, bq + xq, timeout=600)
+            with lock:
+                for (ti, rows), a in zip(bown, ans[:len(bq)]):
+                    stats["rows_compared"] += 1
+                    f = a.split("|")
+                    want = [f[1].split(";") if f[1] else [], f[2].split(";") if f[2] else []] if f[0] == "ok" and len(f) == 3 else None
+                    if want is None or rows != want:
+                        chk.violation("metadata:rows:%s" % per_trace[ti][0][0].fingerprint(),
+                                      "thread.row / cpu.row of the real emulator differ from MetaDefs.build on the real final stream.json files: real %s, model %s" % (rows, want or a),
+                                      {"scripts": [p.short() for p, _, _ in per_trace[ti]], "real_rows": rows, "model": a[:1500],
+                                       "how": "each script: echo 'M z z z <script> <dir>/ovni' | build/harness/rtmeta_drv-* <dir>; ovniemu -l <dir>/ovni; cat <dir>/ovni/thread.row <dir>/ovni/cpu.row"})
+                for a in ans[len(bq):]:
+                    stats["expected_metas_checked"] += 1
+                    if a != "same":
+                        stats["expected_metas_differ"] += 1
+                if stats["expected_metas_differ"]:
+                    chk.notes.append("rtmeta: final_metas <> expected_metas on %d valid programs in the extracted model (contradicts C02_metadata_stream_metas)" % stats["expected_metas_differ"])
         if kq:
             ans = common.batch(ctx.oracle, kq, timeout=600)
             with lock:
@@ -960,7 +1007,7 @@ def run_family(chk, build, art, art_dir):
         "require twice / bad model / bad version, calls before init / after free / after fini, init twice / tid 0, proc init twice, loom name of 512+, missing or mistyped get, "
         "JSON with a repeated name, ...). Every program: real libovni (stream.json read back after EVERY call, order of members included) vs extracted model "
         "(tree written, value returned, die() <-> SIGABRT). Programs that follow the protocol: independent Python decider on the real final files "
-        "(version, ovni.part/tid/pid/loom/require/finished/lib.*, app_id per process, loom_cpus per loom, finished in no earlier dump), extracted meta_check on the real trees, real ovniemu -l on the trace")
+        "(version, ovni.part/tid/pid/loom/require/finished/lib.*, app_id per process, loom_cpus per loom, finished in no earlier dump), extracted meta_check on the real trees, real ovniemu -l on the trace, and its thread.row / cpu.row against the extracted MetaDefs.build (emulator's metadata merge) on the real final trees")
     if confdis:
         chk.coverage["rtmeta_conformance_disagreements"] = confdis[:10]
         chk.violation("spec-deciders-disagree:rtmeta", "the generator's notion of a protocol-following program and the Coq meta_conformant differ on %d programs" % len(confdis),
